@@ -336,3 +336,12 @@ Definition fetch_timeout_ms (sec_flag tmo_flag : Z) (url_sec : option Z) : Z :=
 
 Definition client_allowance_ms (sec_flag tmo_flag : Z) (url_sec : option Z) : Z :=
   fetch_timeout_ms sec_flag tmo_flag url_sec + 5000.
+
+(* ================= file or URL? (round 7) =================
+   fetch() (fetch.go:492-512) stats the source string: only when stat SUCCEEDS is the source read as
+   a local file; every failure (not found, name too long, not a directory, permission denied, ...)
+   sends it to adjustURL / fetchURL.  [stat_res] is the oracle answer of the file system. *)
+Inductive stat_res := StatOk | StatNotExist | StatOther (errno : string).
+Inductive fetch_route := RouteFile | RouteURL.
+Definition route_of_stat (st : stat_res) : fetch_route :=
+  match st with StatOk => RouteFile | _ => RouteURL end.
